@@ -3,6 +3,7 @@ package enga
 import (
 	"errors"
 	"fmt"
+	tpretty "github.com/tidwall/pretty"
 	"math/rand/v2"
 	"os"
 	"path/filepath"
@@ -231,10 +232,18 @@ func c17Fail(c *vkit.Ctx, r *rand.Rand, i int) {
 		snaps.VerifResetProcessState()
 		seed := text
 		if state == "different" {
-			for tries := 0; seed == text && tries < 20; tries++ {
+			// "different" means a different stored text: JSON is stored in canonical form, so
+			// two presentations of one document are the same slot content
+			same := func(a, b string) bool {
+				if yaml {
+					return a == b
+				}
+				return string(tpretty.PrettyOptions([]byte(a), defaultJSONOpts)) == string(tpretty.PrettyOptions([]byte(b), defaultJSONOpts))
+			}
+			for tries := 0; same(seed, text) && tries < 20; tries++ {
 				_, seed = genDoc(r, yaml)
 			}
-			if seed == text {
+			if same(seed, text) {
 				state = "equal"
 			}
 		}
